@@ -66,6 +66,9 @@ def check_rewrite(ctx, case, src=None, base_snap=None):
         if src is None:
             if "fixture" in case:
                 src = fixtures.DATA / case["fixture"]
+            elif "wide" in case:
+                src = tmp / "base.numbers"
+                build_wide(case["wide"]).save(src)
             else:
                 with warnings.catch_warnings():
                     warnings.simplefilter("ignore")
@@ -89,7 +92,7 @@ def check_rewrite(ctx, case, src=None, base_snap=None):
         d = snapshot.diff(base_snap, snap)
         if d:
             keys = sorted(k for k, v in plan.items() if k not in ("salt", "comp") and v)
-            ctx.fail(("C06", "reads_differently", *keys[:4]), case, f"{case.get('fixture', 'generated')} under plan {plan}: " + " | ".join(d[:4]))
+            ctx.fail(("C06", "reads_differently", *keys[:4]), case, f"{case.get('fixture', 'wide table' if 'wide' in case else 'generated')} under plan {plan}: " + " | ".join(d[:4]))
         if warn != base_warn:
             ctx.fail(("C06", "new_warning"), case, f"rewritten file warns {warn}, original {base_warn}")
         for k, v in stats.items():
@@ -105,6 +108,25 @@ def check_rewrite(ctx, case, src=None, base_snap=None):
         shutil.rmtree(tmp, ignore_errors=True)
 
 
+def build_wide(spec):
+    """A table whose rows hold more than 32 KiB of cell storage (many columns of styled, formatted numbers): the library writes
+    them with 4-byte-unit offsets; as byte offsets they still fit the 16-bit field."""
+    from numbers_parser import RGB, Document
+
+    doc = Document(num_rows=spec["rows"], num_cols=spec["cols"], num_header_rows=0, num_header_cols=0)
+    t = doc.sheets[0].tables[0]
+    st_ = doc.add_style(bg_color=RGB(1, 2, 3), bold=True)
+    with warnings.catch_warnings():
+        warnings.simplefilter("ignore")
+        for r in range(spec["rows"]):
+            for c in range(spec["cols"]):
+                if (r + c) % spec.get("gap", 7) == 0:
+                    continue  # some missing cells
+                t.write(r, c, r * 1000 + c + 0.5, style=st_)
+                t.set_cell_formatting(r, c, "number", decimal_places=2)
+    return doc
+
+
 QUICK_FIXTURES = ["issue-43.numbers", "test-issue-75.numbers", "test-1.numbers", "issue-66-collab.numbers", "test-empty-rows.numbers", "test-bullets.numbers", "test-formats.numbers", "issue-14.numbers",
                   "test-new-formulas.numbers", "test-save-1.numbers", "issue-42.numbers", "test-issue-76.numbers", "create-formulas.numbers", "issue-77.numbers"]
 
@@ -115,6 +137,9 @@ def tasks(tier, seed):
     big = {"custom-format-stress.numbers", "test-6.numbers", "issue-67.numbers", "duration_112.numbers", "issue-35.numbers"}
     for name in names:
         t.append(("fixture", {"fixture": name, "singles": (name not in big), "n": 3 if tier == "quick" else (6 if name in big else 40), "seed": derive_seed(seed, "c06", name)}))
+    t.append(("wide", {"rows": 2, "cols": 1000}))
+    if tier != "quick":
+        t.append(("wide", {"rows": 3, "cols": 900}))
     for k in range(8 if tier == "quick" else 16):
         t.append(("generated", {"n": 2 if tier == "quick" else 10, "per": 5 if tier == "quick" else 12, "seed": derive_seed(seed, "c06g", k)}))
     return t
@@ -137,6 +162,9 @@ def run_task(ctx, lane, **kw):
             check_rewrite(ctx, {"lane": "rewrite", "fixture": kw["fixture"], "plan": plan}, src, base)
 
         run_given(ctx, plans, body, kw["n"], kw["seed"], phases=(Phase.explicit, Phase.generate))
+    elif lane == "wide":
+        for offsets in ("narrow", "mixed"):
+            check_rewrite(ctx, {"lane": "rewrite", "wide": {"rows": kw["rows"], "cols": kw["cols"]}, "plan": {"offsets": offsets, "salt": 1}})
     elif lane == "generated":
         def body(recipe):
             tmp = Path(tempfile.mkdtemp(prefix="vf_c06g_"))
@@ -168,4 +196,4 @@ def run_task(ctx, lane, **kw):
 
 
 def check_case(ctx, case):
-    check_rewrite(ctx, {k: v for k, v in case.items() if k in ("lane", "fixture", "recipe", "plan")})
+    check_rewrite(ctx, {k: v for k, v in case.items() if k in ("lane", "fixture", "recipe", "plan", "wide")})
